@@ -227,8 +227,13 @@ func (w *hsWorld) passive(sub uint64) {
 		}
 		w.Probes["syn_retransmitted"]++
 	case 2:
-		w.Advance(time.Duration(r.Range(1, 900)) * time.Millisecond)
-		p.Mine(w.Take())
+		// (beyond one second the SYN-ACK has been retransmitted, once or twice: what acknowledges it is still ISS+1 only)
+		w.Advance(time.Duration(r.Range(1, []int{900, 1500, 3500}[r.Intn(3)])) * time.Millisecond)
+		for _, t := range p.Mine(w.Take()) {
+			if t.Flags&(codec.FlagSYN|codec.FlagACK) == codec.FlagSYN|codec.FlagACK {
+				w.Probes["syn_ack_retransmitted_before_the_final_ack"]++
+			}
+		}
 	}
 	if !w.cfg.Cookie && !twin && r.Chance(0.12) {
 		// a second SYN with another sequence number while the first handshake is half open: whatever the
@@ -362,6 +367,24 @@ func (w *hsWorld) passive(sub uint64) {
 	}
 	if !w.cfg.Cookie && nrst != 1 {
 		w.Fail("wrong-ack-not-reset", "", "final ACK acknowledging %d instead of %d (handshake in progress, not cookie mode) was answered by %d resets, exactly one is required", ack, iss+1, nrst)
+	}
+	if !w.cfg.Cookie && w.Viol == nil && r.Chance(0.4) {
+		// wrong again: the handshake is still in progress, the second wrong ACK is reset like the first
+		ack2 := ack + 200 + uint32(r.Intn(1000))
+		if ack2 == iss+1 {
+			ack2++
+		}
+		p.Send(codec.FlagACK, p.ISS+1, ack2, 65535, nil, nil)
+		n2 := 0
+		for _, t := range p.Mine(w.Take()) {
+			if t.Flags&codec.FlagRST != 0 && t.Seq == ack2 {
+				n2++
+			}
+		}
+		w.Probes["second_wrong_final_ack"]++
+		if n2 != 1 {
+			w.Fail("wrong-ack-not-reset", "", "second wrong final ACK on the same half-open connection (acknowledging %d instead of %d, not cookie mode) was answered by %d resets with that sequence number, exactly one is required", ack2, iss+1, n2)
+		}
 	}
 	if nrst > 1 {
 		w.Fail("wrong-ack-not-reset", "", "wrong final ACK answered by %d resets", nrst)
@@ -501,6 +524,16 @@ func (w *hsWorld) active(sub uint64) {
 	if r.Chance(0.5) {
 		myOpts = append(myOpts, codec.PadOpts(codec.OptMSS(uint16(r.Range(88, 1460))))...)
 	}
+	if r.Chance(0.25) {
+		// the peer is slow: the SYN has gone out two or three times by the time it answers
+		w.Advance(time.Duration(r.Range(1100, 3500)) * time.Millisecond)
+		for _, t := range p.Mine(w.Take()) {
+			if t.Flags == codec.FlagSYN && t.Seq != iss {
+				w.Fail("synack-changed-iss", "", "the retransmitted SYN carries sequence number %d, the first one %d", t.Seq, iss)
+			}
+		}
+		w.Probes["syn_retransmitted_before_the_answer"]++
+	}
 	switch r.Pick(4, 4, 2, 2, 2) {
 	case 0: // correct SYN-ACK
 		w.Probes["active_correct"]++
@@ -632,8 +665,15 @@ func (w *hsWorld) noise(sub uint64) {
 	case 4: // a bare reset for the listener's port
 		p.Send(codec.FlagRST, p.ISS, 0, 0, nil, nil)
 		isReset = true
-	case 5: // a reset that also acknowledges something (a client aborting after the SYN-ACK)
-		p.Send(codec.FlagRST|codec.FlagACK, p.ISS, uint32(r.Uint64()), 0, nil, nil)
+	case 5: // a reset that also acknowledges something (a client aborting after the SYN-ACK), or that carries SYN as well
+		fl := uint8(codec.FlagRST | codec.FlagACK)
+		switch r.Intn(3) {
+		case 1:
+			fl = codec.FlagRST | codec.FlagSYN
+		case 2:
+			fl = codec.FlagRST | codec.FlagSYN | codec.FlagACK
+		}
+		p.Send(fl, p.ISS, uint32(r.Uint64()), 0, nil, nil)
 		isReset = true
 	case 0:
 		a := uint32(r.Range(4, 1000)) * uint32(r.Range(1, 1000))
@@ -652,6 +692,11 @@ func (w *hsWorld) noise(sub uint64) {
 	}
 	w.Probes["listener_noise"]++
 	replies := p.Mine(w.Take())
+	for _, t := range replies {
+		if t.Flags&codec.FlagRST == 0 {
+			w.Fail("unexpected-reply", "", "a segment that is no SYN (flags as sent: %v) arriving at the listening port from port %d drew %s: only a SYN opens a handshake", sent, p.PPort, fl(t))
+		}
+	}
 	if isReset {
 		w.Probes["reset_at_listener"]++
 		if len(replies) > 0 {
